@@ -92,6 +92,9 @@ SPEC_NAMES = {
     "call_time",
     "is_method_of",
     "watches",
+    "flags_all",
+    "flags_all_marked",
+    "flag",
     "group_has",
     "count_calls",
     "wsgi_body",
@@ -958,6 +961,31 @@ class SpecMixin:
             return False
         same = arg.obj is obj or (isinstance(arg.obj, SObj) and isinstance(obj, SObj) and arg.obj.oid == obj.oid)
         return bool(same and arg.name == name)
+
+    def sp_flags_all(self, e, fr):
+        """flags_all(table): every entry of the str -> bool table is True (the predicate the
+        code's all(table.values()) evaluates to, on the table's state where the clause is evaluated)"""
+        from .models import flags_all
+
+        t = self.ev(e.args[0], fr)
+        return mk_bool(flags_all(self, t.fields["has"], t.fields["val"], t.fields["keys"]))
+
+    def sp_flags_all_marked(self, e, fr):
+        """flags_all_marked(table, key): every entry is True once table[key] = True has been done"""
+        from .models import flags_all
+        from .sym import str_to_z3
+
+        t = self.ev(e.args[0], fr)
+        k = str_to_z3(self.ev(e.args[1], fr))
+        return mk_bool(flags_all(self, z3.Store(t.fields["has"], k, z3.BoolVal(True)), z3.Store(t.fields["val"], k, z3.BoolVal(True)), list(t.fields["keys"]) + [k]))
+
+    def sp_flag(self, e, fr):
+        """flag(table, key): the table has an entry for key and it is True"""
+        from .sym import str_to_z3
+
+        t = self.ev(e.args[0], fr)
+        k = str_to_z3(self.ev(e.args[1], fr))
+        return mk_bool(z3.And(z3.Select(t.fields["has"], k), z3.Select(t.fields["val"], k)))
 
     def sp_group_has(self, e, fr):
         """group_has(exc, (T1, T2)): the exception group contains an exception of one of the
